@@ -38,10 +38,11 @@ def modelStatus (t : Table) (p : Str) : String :=
   if emptyTable t then "err"
   else if byteLen p = 0 then "err"
   else
+    let m := chooserMap id t
     let rec go : Str → String
       | [] => "ok"
       | aa :: rest =>
-        match mapGet (chooserMap id t) [aa] with
+        match mapGet m [aa] with
         | none => "err"
         | some ch => if ch.max ≤ 0 then "panic" else go rest
     go p
